@@ -1208,6 +1208,7 @@ func runCase(o *outT, idx int, seed uint64) (rspec *caseSpec, rwant []string) {
 	var want []string
 	var lastCommit *types.Commit = types.NewCommit(0, 0, types.BlockID{}, nil)
 	valChanged := false
+	prevStop := false
 
 	for h := uint64(1); h <= uint64(nBlocks); h++ {
 		step := int(h)
@@ -1408,13 +1409,48 @@ func runCase(o *outT, idx int, seed uint64) (rspec *caseSpec, rwant []string) {
 					o.Fail(step, "nondeterministic-across-configurations", fmt.Sprintf("%s vs default: %s", p.n.name, diffObs(ref, got)))
 				}
 			}
+			// known finding, kept narrow: the previous block carried a SUCCESSFUL stop() of a
+			// validator contract and it is the staking contract's finalize() that now reverts
+			// (mint still succeeds); anything else is a plain violation
 			cls := "own-block-not-applied"
-			if strings.Contains(ref, "commit failed for application: execution reverted") {
-				cls = "own-block-unappliable-staking-revert"
+			if prevStop && strings.Contains(ref, "commit failed for application: execution reverted") {
+				func() {
+					defer func() { recover() }()
+					d, err := R.bc.State()
+					if err != nil {
+						return
+					}
+					if _, e1 := stkUtil.Mint(d, blk.Header(), R.bc, kvm.Config{}); e1 != nil {
+						return
+					}
+					if e2 := stkUtil.FinalizeCommit(d, blk.Header(), R.bc, kvm.Config{}, beginBlockInfo(R, blk)); e2 != nil && strings.Contains(e2.Error(), "execution reverted") {
+						cls = "own-block-unappliable-staking-revert"
+					}
+				}()
 			}
 			o.Fail(step, cls, ref)
 			o.Count("exec:block-unappliable")
 			break
+		}
+		// did this block carry a successful stop() of a validator contract?
+		prevStop = false
+		if repInfo != nil {
+			stopID := valABI.Methods["stop"].ID
+			p := 0
+			for _, tx := range blk.Transactions() {
+				if p < len(repInfo.Receipts) && repInfo.Receipts[p].TxHash == tx.Hash() {
+					rc := repInfo.Receipts[p]
+					p++
+					if rc.Status == 1 && tx.To() != nil && len(tx.Data()) >= 4 && bytes.Equal(tx.Data()[:4], stopID) {
+						for _, vs := range valSmc {
+							if vs == *tx.To() {
+								prevStop = true
+								o.Count("exec:successful-validator-stop")
+							}
+						}
+					}
+				}
+			}
 		}
 		if R.st.NextValidators.Hash() != prevNV {
 			valChanged = true
